@@ -449,6 +449,13 @@ def check(an: Analysis) -> None:
                 ob.fail(sf, c, "ctx.scope does not hand every element of the `disposables` iterable to Disposables(...): equal / filtered-out disposables are never entered nor exited")
     if not n_ctor:
         ob.missing(scope_f, None, "ctx.scope builds no Disposables from the iterable it was given")
+    from ..engine import borrow
+    from . import c03
+
+    # the state the disposables yielded is handed to the scope state as (part of) a non-empty update: C03.5 - such an update is
+    # answered with a new scope state built from *all* of it (not with the old snapshot after a first look at the elements, which
+    # also eats the first of them when they come as a one-shot iterable)
+    borrow(an, c03.check, {"C03.5": "C08.10"})
 
 
 def _same_elements(an: Analysis, fi: FunctionInfo, d: Deps, e: ast.AST | None, param: str, depth: int = 5) -> bool:
